@@ -3,24 +3,24 @@ package main
 // Translation of contract expressions (Go expression syntax + builtins) to SMT.
 
 import (
-	"go/constant"
 	"fmt"
 	"go/ast"
+	"go/constant"
 
-	"golang.org/x/tools/go/ssa"
 	"go/token"
 	"go/types"
+	"golang.org/x/tools/go/ssa"
 	"strconv"
 	"strings"
 )
 
 type Ctx struct {
-	E         *Enc
-	Vars      map[string]Val
-	St        *State
-	Old       *Ctx
-	LoopEntry *Ctx
-	where     string
+	E          *Enc
+	Vars       map[string]Val
+	St         *State
+	Old        *Ctx
+	LoopEntry  *Ctx
+	where      string
 	lazyStruct bool
 }
 
@@ -530,6 +530,22 @@ func (c *Ctx) trCall(x *ast.CallExpr) Val {
 			}
 		}
 		return bval(and(cs...))
+	case "forallobj":
+		// forallobj(q, guard, body): an invariant of every object q with guard, used by explicit unfolding:
+		// the fact is instantiated only for objects named by open(x) (`ghost .. :: use open(x)`). The
+		// uninterpreted predicate wfopen has no meaning (every interpretation is admitted, including "all
+		// objects"), so what is proved holds for the plain universally quantified invariant.
+		id := args[0].(*ast.Ident)
+		bv := c.E.freshName("q_" + id.Name)
+		inner := c.with(map[string]Val{id.Name: ival(bv)})
+		if c.Old != nil {
+			inner.Old = c.Old.with(map[string]Val{id.Name: ival(bv)})
+		}
+		guard := inner.boolT(args[1])
+		return bval(fmt.Sprintf("(forall ((%s Int)) (! %s :pattern ((wfopen %s))))", bv, imp(and(app("wfopen", bv), guard), inner.boolT(args[2])), bv))
+	case "open":
+		v := c.tr(args[0])
+		return bval(app("wfopen", v.C[0]))
 	case "forallge":
 		// forallge(q, lo, body): for all q >= lo
 		id := args[0].(*ast.Ident)
@@ -830,7 +846,6 @@ func max(a, b int) int {
 	}
 	return b
 }
-
 
 // concatSpec: the concatenation of two strings in a contract expression.
 func (e *Enc) concatSpec(a, b Val) Val {
